@@ -81,7 +81,7 @@ def make_file(records, width, crlf, final_nl, desc):
     nl = b"\\r\\n" if crlf else b"\\n"
     out = bytearray()
     for ri, (name, seq) in enumerate(records):
-        out += b">" + name + (b" a description here" if desc else b"") + nl
+        out += b">" + name + ((b" a description here" if ri % 2 == 0 else b"\tlen=7 tab separated") if desc else b"") + nl
         lines = [seq[i:i + width] for i in range(0, len(seq), width)]
         for li, ln in enumerate(lines):
             out += ln
@@ -205,6 +205,62 @@ def family(buf, k0, r1, r2, r3, tail, desc, width, crlf, final_nl, rmax, lead):
     return FIN(check_index(content, crlf, buf))
 
 
+def via_fastaindex_object(buf: int, k0: int, r1: int, r2: int, r3: int) -> bool:
+    """
+    pre: buf >= 1 and 0 <= k0 <= 1 and 0 <= r1 <= 2 and 0 <= r2 <= 2 and 0 <= r3 <= 2
+    post: _
+    """
+    # the same family indexed through FastaIndex.run_indexing (as auto_load does): the object's
+    # buffer size must be the one in force (memory bound) and both cache files are written
+    START()
+    seq = seq_from_runs(pick(k0, 0, 1), [pick(r1, 0, 2), pick(r2, 0, 2), pick(r3, 0, 2)])
+    if not seq:
+        return FIN(True)
+    content = untraced(make_file, [(b"fix1", b"ACNNGT"), (b"var1", seq)], 2, False, True, True)
+    written = {}
+
+    class MemOut:
+        def __init__(self, name):
+            self.name = name
+
+        def exists(self):
+            return self.name in written
+
+        def with_name(self, nm):
+            return MemOut(nm)
+
+        def open(self, mode="r", buffering=-1, encoding=None, errors=None, newline=None):
+            buf_ = io.StringIO()
+            written[self.name] = buf_
+            buf_.close = lambda: None
+            return buf_
+
+        def replace(self, target):
+            written[target.name] = written.pop(self.name)
+
+        def unlink(self, missing_ok=False):
+            written.pop(self.name, None)
+
+    fi = object.__new__(FastaIndex)
+    fi.fasta_file = FakeFile(content)
+    fi.buffer_size = buf
+    fi.fai_file = MemOut("in.fa.fai")
+    fi.agp_file = MemOut("in.fa.agp")
+    fi.index = None
+    fi.assembly = None
+    WatchIO.ok = True
+    WatchIO.limit = buf
+    WatchIO.line = 2
+    fi.run_indexing()
+    WatchIO.limit = None
+    ref = untraced(reference, content, False)
+    ok = list(fi.index.keys()) == [r[0] for r in ref] and sorted(written) == ["in.fa.agp", "in.fa.fai"]
+    for (name, length, off, rpl, mll, rows, sq) in ref:
+        info = fi.index[name]
+        ok = ok and (info.length, info.file_offset, info.residues_per_line, info.max_line_length) == (length, off, rpl, mll)
+    return FIN(AND(ok, WatchIO.ok))
+
+
 def dup_names(buf: int) -> bool:
     """
     pre: buf >= 1
@@ -283,10 +339,13 @@ def _conds(prefix=""):
             out.append(Cond(f"{prefix}index_{name[4:]}", src_all, name, to,
                             f"files of line width {width}, {'CRLF' if crlf else 'LF'}, final newline {'present' if final_nl else 'ABSENT'}: one record of up to 3 alternating runs "
                             f"(ACGT-class / other-class incl. lower case, IUPAC, * and -) of 0..{rmax} residues each, starting with either class, "
-                            f"{'after a fixed leading record, ' if lead else ''}optionally followed by a fixed record, with/without a header description; "
+                            f"{'after a fixed leading record, ' if lead else ''}optionally followed by a fixed record, with/without a header description (space- or TAB-separated); "
                             "buffer size = UNBOUNDED symbolic integer >= 1",
                             tier=tier, encodes=ENC))
         if tier == "quick":
+            out.append(Cond(f"{prefix}run_indexing_uses_the_objects_buffer_size", src_all, "via_fastaindex_object", 600,
+                            "width-2 family (runs 0..2) indexed through FastaIndex.run_indexing with an unbounded symbolic buffer_size: memory bound of the sequence buffer, index equals the reference, both cache files written",
+                            encodes=ENC + ("FastaIndex.run_indexing", "FastaIndex.write_index", "FastaIndex.write_assembly")))
             out.append(Cond(f"{prefix}duplicate_names_rejected", src_all, "dup_names", 120, "3 records, first and third share a name; every buffer size", encodes=ENC[:2]))
             out.append(Cond(f"{prefix}no_records_rejected", src_all, "no_records", 120, "empty file / blank line / sequence without header; every buffer size", encodes=ENC[:1]))
     return out
@@ -302,7 +361,7 @@ def c13_conditions(tier):
     """C13 reuses the family: identical result for every buffer size (the oracle
     does not mention the buffer) and the buffer never holds more than
     buffer_size + one line"""
-    return [c for c in _conds("indexer_") if "rejected" not in c.name]
+    return [c for c in _conds("indexer_") if "rejected" not in c.name]  # incl. run_indexing_uses_the_objects_buffer_size
 
 
 BOUNDS = ["structural family: line widths 1-3 (quick) / 1-5 (thorough), LF/CRLF, final newline present/absent, description yes/no, 1-3 records, "
